@@ -153,7 +153,7 @@ def a_contract(draw, cx, name, node=None):
     a["type"] = "contract"
     a["min_take"], a["max_take"] = takes(draw, cx, a["min_cap"], a["max_cap"])
     if a["min_take"] or a["max_take"]:
-        a["take_form"] = draw(st.sampled_from(["list", "list", "array", "dtindex"]))
+        a["take_form"] = draw(st.sampled_from(["list", "list", "array", "dtindex", "scalar"]))
     return a
 
 
@@ -186,7 +186,7 @@ def a_transport(draw, cx, name, ext=None):
         # takes refer to the quantity taken FROM node 1 (= flow), same sign as the flow
         a["min_take"], a["max_take"] = takes(draw, cx, a["min_cap"], a["max_cap"], n_max=1)
         if a["min_take"] or a["max_take"]:
-            a["take_form"] = draw(st.sampled_from(["list", "list", "array", "dtindex"]))
+            a["take_form"] = draw(st.sampled_from(["list", "list", "array", "dtindex", "scalar"]))
     return a
 
 
